@@ -183,5 +183,6 @@ pub mod wait {
 /// Add-only re-export for the external verification harness (feature `verif_hooks`, off by default).
 #[cfg(feature = "verif_hooks")]
 pub mod verif {
+    pub use super::runtime::verif::RouteTable;
     pub use super::store::in_memory::InMemoryPersistence;
 }
